@@ -45,6 +45,7 @@ func runC04(c *core.Ctx) error {
 	}
 	checkFormatPairs(c, prog)
 	checkLosslessConversions(c, prog)
+	checkWrapperNaming(c, prog)
 	exp, err := c.Expand(nil)
 	r3 := c.NewRule("R04.3", "S2", "generic wrappers keep absent / null / present apart in both directions", 40)
 	r4 := c.NewRule("R04.4", "S2", "arrays decoded with d.Arr start from a non-nil empty slice", 100)
@@ -61,6 +62,7 @@ func runC04(c *core.Ctx) error {
 		checkArrayInit(c, r4, exp, fx)
 		checkStructKeys(c, r5, exp, fx)
 		checkSumTypes(c, r6, exp, fx)
+		checkDiscriminatedInlining(c, r6, exp, fx)
 	}
 	return nil
 }
@@ -1186,4 +1188,274 @@ func lookupMethodSafe(prog *core.Prog, t types.Type, pkg *types.Package, name st
 		return nil
 	}
 	return prog.SSA.MethodValue(sel)
+}
+
+// ---------------------------------------------------------------- R04.1b
+
+// switchTerms maps each string case label of the first `switch f := s.Format; f` (or `switch s.Format`) of a method
+// to the set of symbolic terms its returns can produce.
+func switchTerms(fd *ast.FuncDecl) map[string]map[string]bool {
+	out := map[string]map[string]bool{}
+	var target *ast.SwitchStmt
+	ast.Inspect(fd.Body, func(n ast.Node) bool {
+		sw, ok := n.(*ast.SwitchStmt)
+		if !ok {
+			return true
+		}
+		// the switch over the schema format has many string labels
+		labels := 0
+		for _, cs := range sw.Body.List {
+			for _, e := range cs.(*ast.CaseClause).List {
+				if _, ok := strLit(e); ok {
+					labels++
+				}
+			}
+		}
+		if labels >= 8 && (target == nil) {
+			target = sw
+		}
+		return true
+	})
+	if target == nil {
+		return nil
+	}
+	for _, cs := range target.Body.List {
+		cc := cs.(*ast.CaseClause)
+		var labels []string
+		for _, e := range cc.List {
+			if sv, ok := strLit(e); ok {
+				labels = append(labels, sv)
+			}
+		}
+		if len(labels) == 0 {
+			continue
+		}
+		var terms []string
+		ast.Inspect(cc, func(n ast.Node) bool {
+			if _, ok := n.(*ast.FuncLit); ok {
+				return false
+			}
+			rs, ok := n.(*ast.ReturnStmt)
+			if !ok || len(rs.Results) != 1 {
+				return true
+			}
+			terms = append(terms, types.ExprString(rs.Results[0]))
+			return true
+		})
+		for _, l := range labels {
+			if out[l] == nil {
+				out[l] = map[string]bool{}
+			}
+			for _, t := range terms {
+				// a term that mentions the switch variable stands for a different string per label
+				if strings.Contains(t, "(f)") || strings.HasSuffix(t, " f") || t == "f" {
+					t = strings.ReplaceAll(t, "(f)", "("+strconv.Quote(l)+")")
+					if t == "f" {
+						t = strconv.Quote(l)
+					}
+				}
+				out[l][t] = true
+			}
+		}
+	}
+	return out
+}
+
+func termKey(m map[string]bool) string {
+	var ks []string
+	for k := range m {
+		ks = append(ks, k)
+	}
+	sort.Strings(ks)
+	return strings.Join(ks, " | ")
+}
+
+// checkWrapperNaming: optional/nullable wrappers are stored by name (Opt<postfix>), and the codec a wrapper uses
+// is chosen by JSON.Format(). Two formats that select different codecs must therefore get different name postfixes,
+// or one wrapper type — with one codec — serves both.
+func checkWrapperNaming(c *core.Ctx, prog *core.Prog) {
+	r := c.NewRule("R04.1b", "S1", "wrapper naming is at least as fine as codec selection: formats with different JSON.Format() results have different Type.NamePostfix() results", 20)
+	irp := prog.PkgBy[pkgIR]
+	if irp == nil {
+		r.Undecided("load", "-", "gen/ir not loaded")
+		return
+	}
+	var format, postfix *ast.FuncDecl
+	for _, f := range irp.Syntax {
+		for _, d := range f.Decls {
+			if x, ok := d.(*ast.FuncDecl); ok && x.Recv != nil && x.Body != nil {
+				switch {
+				case x.Name.Name == "Format" && astRecvName(x.Recv.List[0].Type) == "JSON":
+					format = x
+				case x.Name.Name == "NamePostfix" && astRecvName(x.Recv.List[0].Type) == "Type":
+					postfix = x
+				}
+			}
+		}
+	}
+	if format == nil || postfix == nil {
+		r.Undecided("anchor:Format/NamePostfix", "-", "ir.JSON.Format or ir.Type.NamePostfix not found")
+		return
+	}
+	ft := switchTerms(format)
+	pt := switchTerms(postfix)
+	if len(ft) == 0 || len(pt) == 0 {
+		r.Undecided("anchor:format-switch", c.Pos(format.Pos()), "no switch over format labels recognised in Format / NamePostfix")
+		return
+	}
+	var labels []string
+	for l := range ft {
+		labels = append(labels, l)
+	}
+	sort.Strings(labels)
+	for i, a := range labels {
+		for _, b := range labels[i+1:] {
+			if termKey(ft[a]) == termKey(ft[b]) {
+				continue // same codec: may share a wrapper
+			}
+			pa, okA := pt[a]
+			pb, okB := pt[b]
+			key := fmt.Sprintf("wrapper-name:%s/%s", a, b)
+			switch {
+			case !okA || !okB:
+				// one of them falls into NamePostfix's default (primitive name): compare only when both known
+				r.Ob(true, "")
+			case termKey(pa) == termKey(pb):
+				r.Fail(key, c.Pos(postfix.Pos()), fmt.Sprintf("formats %q and %q select different codecs (%s vs %s) but get the same wrapper name postfix (%s): the Opt/Nil wrapper is stored by name, so one of the two members is decoded with the other's codec", a, b, termKey(ft[a]), termKey(ft[b]), termKey(pa)))
+			default:
+				r.Ob(true, "")
+			}
+		}
+	}
+	r.Note("format labels with a codec: %d, with a postfix case: %d", len(ft), len(pt))
+}
+
+// ---------------------------------------------------------------- R04.6b (S2)
+
+// checkDiscriminatedInlining: a discriminated sum inlines each variant's members into its own encodeFields. Whatever
+// member (s.X) the variant's own encodeFields writes — except the discriminator property itself — must also be written
+// in that variant's case of the sum's encodeFields.
+func checkDiscriminatedInlining(c *core.Ctx, r *core.Rule, exp *core.Expansion, fx *core.Fixture) {
+	p := exp.Prog.PkgBy[fx.PkgPath]
+	if p == nil {
+		return
+	}
+	encFields := map[string]*ast.FuncDecl{}
+	for _, f := range p.Syntax {
+		for _, d := range f.Decls {
+			if x, ok := d.(*ast.FuncDecl); ok && x.Recv != nil && x.Body != nil && x.Name.Name == "encodeFields" {
+				encFields[astRecvName(x.Recv.List[0].Type)] = x
+			}
+		}
+	}
+	members := func(n ast.Node) map[string]bool {
+		out := map[string]bool{}
+		ast.Inspect(n, func(m ast.Node) bool {
+			if sel, ok := m.(*ast.SelectorExpr); ok {
+				if id, ok := sel.X.(*ast.Ident); ok && id.Name == "s" {
+					out[sel.Sel.Name] = true
+				}
+			}
+			return true
+		})
+		return out
+	}
+	for tn, fd := range encFields {
+		// discriminated: body is `switch s.Type { case XT: e.FieldStart("disc"); e.Str("key"); { s := s.X … } }`
+		if len(fd.Body.List) != 1 {
+			continue
+		}
+		sw, ok := fd.Body.List[0].(*ast.SwitchStmt)
+		if !ok || sw.Tag == nil || types.ExprString(sw.Tag) != "s.Type" {
+			continue
+		}
+		for _, cs := range sw.Body.List {
+			cc := cs.(*ast.CaseClause)
+			if len(cc.Body) < 2 {
+				continue
+			}
+			// discriminator property written first
+			disc := ""
+			if es, ok := cc.Body[0].(*ast.ExprStmt); ok {
+				if ce, ok := es.X.(*ast.CallExpr); ok && types.ExprString(ce.Fun) == "e.FieldStart" && len(ce.Args) == 1 {
+					disc, _ = strLit(ce.Args[0])
+				}
+			}
+			if disc == "" {
+				continue
+			}
+			// inlined variant: { s := s.V … }
+			variant := ""
+			var block *ast.BlockStmt
+			for _, st := range cc.Body {
+				if blk, ok := st.(*ast.BlockStmt); ok && len(blk.List) > 0 {
+					if as, ok := blk.List[0].(*ast.AssignStmt); ok && len(as.Lhs) == 1 && types.ExprString(as.Lhs[0]) == "s" {
+						if sel, ok := as.Rhs[0].(*ast.SelectorExpr); ok {
+							variant = sel.Sel.Name
+							block = blk
+						}
+					}
+				}
+			}
+			// the variant may have been left out entirely: find it from the case constant <Variant><Sum>
+			if variant == "" && len(cc.List) == 1 {
+				variant = strings.TrimSuffix(types.ExprString(cc.List[0]), tn)
+			}
+			own := encFields[variant]
+			if own == nil {
+				continue
+			}
+			want := members(own.Body)
+			// the discriminator member of the variant struct: the one whose FieldStart key is disc
+			ast.Inspect(own.Body, func(m ast.Node) bool {
+				blk, ok := m.(*ast.BlockStmt)
+				if !ok {
+					return true
+				}
+				isDisc := false
+				ast.Inspect(blk, func(k ast.Node) bool {
+					if ce, ok := k.(*ast.CallExpr); ok && types.ExprString(ce.Fun) == "e.FieldStart" && len(ce.Args) == 1 {
+						if sv, ok := strLit(ce.Args[0]); ok && sv == disc {
+							isDisc = true
+						}
+					}
+					return true
+				})
+				if isDisc && blk != own.Body {
+					for f := range members(blk) {
+						// only drop it if this block writes nothing but the discriminator
+						n := 0
+						ast.Inspect(blk, func(k ast.Node) bool {
+							if ce, ok := k.(*ast.CallExpr); ok && types.ExprString(ce.Fun) == "e.FieldStart" {
+								n++
+							}
+							return true
+						})
+						if n == 1 {
+							delete(want, f)
+						}
+					}
+					return false
+				}
+				return true
+			})
+			got := map[string]bool{}
+			if block != nil {
+				got = members(block)
+			}
+			var missing []string
+			for f := range want {
+				if !got[f] {
+					missing = append(missing, f)
+				}
+			}
+			sort.Strings(missing)
+			key := fmt.Sprintf("%s/%s:%s", fx.Name, tn, variant)
+			if len(missing) == 0 {
+				r.Pass(fmt.Sprintf("%s: every member the variant's own encoder writes is inlined under the discriminator", key))
+			} else {
+				r.Fail("discriminated-inline:"+key, c.Pos(cc.Pos()), fmt.Sprintf("%s.encodeFields writes variant %s without its members %v, which %s.encodeFields (and the decoder) handle: they are lost on encode", tn, variant, missing, variant))
+			}
+		}
+	}
 }
